@@ -1,6 +1,6 @@
 """C02 well-formedness preserved by every history of modifying calls (structural necessary conditions)."""
 from prog import *
-import effects, flags, atomic, oblig, setkind, must
+import effects, flags, atomic, oblig, setkind, must, lists, tailzero
 import props.C08 as c08
 
 GP_OWNERS = {"hwloc_alloc_setup_object": "the one generator: next_gp_index++", "hwloc__duplicate_object": "copies the source's gp_index into the new object",
@@ -50,6 +50,11 @@ def run(chk, tier):
     for fn, unit, callee in (("hwloc_cpukinds_register", "cpukinds.c", "hwloc_internal_cpukinds_rank"),
                              ("hwloc_distances_add_commit", "distances.c", "hwloc__reconnect")):
         oblig.success_needs(chk, P, fn, unit, calls=(callee,))
+    chk.rule("R-UNLINK", "removing a distances matrix from the topology's doubly linked list updates the predecessor or the head AND the successor or the tail (all discovered removal sites)")
+    nu = lists.list_unlink(chk, P, ["hwloc_distances_remove_by_depth", "hwloc_distances_release_remove"], "distances.c")
+    chk.floor("R-UNLINK", "removal sites of the distances list", nu, 2)
+    chk.rule("R-TAILZERO", "zero-tail discipline of the cpukinds array (register after restrict): see C15")
+    tailzero.run(chk, P, only_arrays=("cpukinds",), min_arrays=1)
     chk.rule("R-WRITER", "gp_index is produced only by the generator, dup and XML import; object userdata is never written by hwloc except the verbatim copy on dup")
     units = list(P.units)
     n1, seen = oblig.writers(chk, P, units, "hwloc_obj", "gp_index", GP_OWNERS)
@@ -58,7 +63,8 @@ def run(chk, tier):
     chk.floor("R-WRITER", "stores to hwloc_obj.userdata", n2, 1)
     chk.decided += ["restrict: see C08", "allow/restrict leave the topology untouched on EINVAL (no write before any EINVAL exit)",
                     "Group/Misc insertion, cpukinds registration, distances commit re-establish derived state on their success paths",
-                    "gp_index of surviving objects never changes and userdata is never altered (who-may-write)", "cpusets/nodesets never mixed"]
+                    "gp_index of surviving objects never changes and userdata is never altered (who-may-write)", "cpusets/nodesets never mixed",
+                    "distances removals keep the list's head/tail and neighbour links consistent; child lists dropped by restrict are reset; a cpukind removed by restrict leaves no stale slot"]
     chk.undecided += ["that the reconnected tree is correct for a given history of calls (composition of entry points)",
                       "Groups inserted by distance-based grouping at commit time (depth/total_memory recomputation: only the reconnect obligation is checked)",
                       "dont_merge Group equal to an existing Group (value decision inside hwloc__insert_try_merge_group)"]
